@@ -217,3 +217,79 @@ example : (((List.replicate 5 (addLit 2)).foldl (fun t a => setvarEval t [0x73] 
 /-! ## non-vacuity -/
 example : (setvarEval {} [0x73] (.assign [.text [0x2b, 0x35]])).txc.get [0x73] = [[0x35]] := by decide
 example : (setvarEval (setvarEval {} [0x73] (.assign [.text [0x2b, 0x35]])) [0x53] (.assign [.text [0x2b, 0x32]])).txc.get [0x73] = [[0x37]] := by decide
+
+/-! ## signed operands and negative totals -/
+
+
+/-- the action `setvar:tx.k=+n` / `setvar:tx.k=-n` with a literal n -/
+def addSigned (neg : Bool) (n : Nat) : SetOp := .assign [.text ((if neg then 0x2d else 0x2b) :: natToBytes n)]
+
+/-- **C09_signed_step**: if TX:k holds the decimal text of the integer `cur`, one execution of
+    `setvar:tx.k=+n` (or `-n`) leaves the decimal text of `cur + n` (`cur - n`), as long as the
+    numbers stay inside the int64 range the code computes in — negative totals included. -/
+theorem C09_signed_step (tx : Tx) (k : Bytes) (cur : Int) (neg : Bool) (n : Nat)
+    (hc1 : -9223372036854775808 ≤ cur) (hc2 : cur ≤ 9223372036854775807) (hn : n ≤ 9223372036854775807)
+    (hr1 : -9223372036854775808 ≤ (if neg then cur - n else cur + n))
+    (hr2 : (if neg then cur - n else cur + n) ≤ 9223372036854775807)
+    (hcur : (tx.txc.get (lower k)).head? = some (intToBytes cur)) :
+    (setvarEval tx k (addSigned neg n)).txc.get (lower k) = [intToBytes (if neg then cur - n else cur + n)] := by
+  have hn1 := (natToBytes_spec n).2.1
+  unfold setvarEval addSigned
+  simp only [expand, List.flatMap_cons, expandTok, List.flatMap_nil, List.append_nil, lower_idem]
+  have e2 : (natToBytes n).isEmpty = false := by cases h : natToBytes n <;> simp_all
+  have e3 : (intToBytes cur).isEmpty = false := by
+    unfold intToBytes; split
+    · simp
+    · have := (natToBytes_spec cur.toNat).2.1
+      cases h : natToBytes cur.toNat <;> simp_all
+  cases neg
+  · have e1 : ((0x2b : UInt8) == 0x2b || (0x2b : UInt8) == 0x2d) = true := by decide
+    have e4 : ((0x2b : UInt8) == 0x2b) = true := by decide
+    simp only [Bool.false_eq_true, if_false, e1, if_true, e2, atoiOpt_natToBytes n (by omega), hcur, Option.getD_some, e3,
+      atoiOpt_intToBytes cur hc1 hc2, e4]
+    simp only [Bool.false_eq_true, if_false] at hr1 hr2
+    rw [wrap64_id _ hr1 hr2]
+    exact CMap.get_set1 _ _ _
+  · have e1 : ((0x2d : UInt8) == 0x2b || (0x2d : UInt8) == 0x2d) = true := by decide
+    have e4 : ((0x2d : UInt8) == 0x2b) = false := by decide
+    simp only [if_true, e1, e2, Bool.false_eq_true, if_false, atoiOpt_natToBytes n (by omega), hcur, Option.getD_some, e3,
+      atoiOpt_intToBytes cur hc1 hc2, e4]
+    simp only [if_true] at hr1 hr2
+    rw [wrap64_id _ hr1 hr2]
+    exact CMap.get_set1 _ _ _
+
+example : (setvarEval (setvarEval {} [0x73] (.assign [.text [0x33]])) [0x73] (addSigned true 5)).txc.get [0x73] = [[0x2d, 0x32]] := by decide
+
+def inInt64 (i : Int) : Prop := -9223372036854775808 ≤ i ∧ i ≤ 9223372036854775807
+
+def signedVal (p : Bool × Nat) : Int := if p.1 then -(p.2 : Int) else (p.2 : Int)
+
+/-- every operand fits and every running total stays inside the int64 range -/
+def RunningOK : Int → List (Bool × Nat) → Prop
+  | _, [] => True
+  | cur, p :: ps => p.2 ≤ 9223372036854775807 ∧ inInt64 (cur + signedVal p) ∧ RunningOK (cur + signedVal p) ps
+
+/-- **C09_signed_sum**: any sequence of `setvar:tx.k=+n` / `setvar:tx.k=-n` executions (one per matched
+    value, in any mix, through negative totals) turns `cur` into `cur` plus the signed sum of the
+    operands, as long as the running total stays inside the int64 range. -/
+theorem C09_signed_sum (k : Bytes) (ops : List (Bool × Nat)) (tx : Tx) (cur : Int) (hc : inInt64 cur)
+    (hok : RunningOK cur ops) (hcur : (tx.txc.get (lower k)).head? = some (intToBytes cur)) :
+    ((ops.foldl (fun t p => setvarEval t k (addSigned p.1 p.2)) tx).txc.get (lower k)).head? =
+      some (intToBytes (cur + (ops.map signedVal).sum)) := by
+  induction ops generalizing tx cur with
+  | nil => simpa using hcur
+  | cons p ps ih =>
+    obtain ⟨hn, hr, hrest⟩ := hok
+    simp only [List.foldl_cons, List.map_cons, List.sum_cons]
+    have hval : (if p.1 then cur - (p.2 : Int) else cur + (p.2 : Int)) = cur + signedVal p := by
+      unfold signedVal; split <;> omega
+    have hstep := C09_signed_step tx k cur p.1 p.2 hc.1 hc.2 hn (by rw [hval]; exact hr.1) (by rw [hval]; exact hr.2) hcur
+    rw [hval] at hstep
+    have := ih (setvarEval tx k (addSigned p.1 p.2)) (cur + signedVal p) hr hrest (by rw [hstep]; rfl)
+    rw [this]
+    congr 2
+    omega
+
+/-- the premises are satisfiable through a negative total: 3, then -5, +1, -2 -/
+example : RunningOK 3 [(true, 5), (false, 1), (true, 2)] := by
+  simp [RunningOK, inInt64, signedVal]
